@@ -75,7 +75,7 @@ def model_checking(ctx):
         ("asfound-batch-local", "SpecAll", {"ScoreVals": "<- MCScores2", "BatchLocalSkipped": "= FALSE"}, False, "P_C06_Never", 2),
     ]
     if T:
-        jobs.insert(1, ("all-gs-4peers", "SpecAll", {"PeerSeq": "<- Seq4", "ScoreVals": "<- MCScores2"}, False, "ok", 8))
+        jobs.insert(1, ("all-gs-4peers", "SpecAll", {"PeerSeq": "<- Seq4", "ScoreVals": "<- MCScores2"}, False, "ok", 4))
 
     def one(j):
         name, spec, over, view, expect, workers = j
@@ -197,10 +197,48 @@ GS_CFG = {"score": True, "D": 2, "Dlo": 1, "Dhi": 4, "Dscore": 1, "Dout": 0, "op
 OUTSIDER = "px"
 
 
-def to_scenario(acts, router, flood):
+VARIANT_KEYS = ("rsa", "withKey", "unk", "noseqno", "nofrom", "unsigned")
+
+
+def pick_variant(rng, outsider_author, lax=False):
+    """Field variant of a remote message (see harness/drivers/c06): which optional protobuf fields the message carries.
+    The forwarded copy must be field for field what was received whatever they are. An RSA identity replaces the
+    outsider author only (the model's author classes stay as they are)."""
+    r, v = rng.random(), {}
+    if lax and r < 0.45:
+        v = rng.choice([{"unsigned": True}, {"nofrom": True}, {"noseqno": True}, {"unsigned": True, "unk": True},
+                        {"unsigned": True, "noseqno": True}, {"unsigned": True, "size": 3000}])
+    elif r < 0.35:
+        v = {}
+    elif r < 0.55:
+        v = {"rsa": rng.choice([1, 2])} if outsider_author else {"withKey": True}
+    elif r < 0.68:
+        v = {"withKey": True}
+    elif r < 0.78:
+        v = {"unk": True}
+    elif r < 0.86:
+        v = {"size": 3000}
+    elif r < 0.93:
+        v = {"withKey": True, "unk": True}
+    else:
+        v = dict({"rsa": rng.choice([1, 2])} if outsider_author else {"withKey": True}, size=3000, unk=True)
+    return v
+
+
+def to_scenario(acts, router, flood, rng=None):
     """Translate the model's history records [a, p, q, v, b] into world actions. Returns None when the history
-    cannot be expressed (an IDONTWANT for a message whose author does not exist yet)."""
+    cannot be expressed (an IDONTWANT for a message whose author does not exist yet). With rng, every remote
+    message gets a seeded field variant."""
     gossip = router == "gossipsub"
+    variants = {}
+
+    def variant(a):
+        if rng is None:
+            return {}
+        if a["v"] not in variants:
+            variants[a["v"]] = pick_variant(rng, a["q"] == OUTSIDER)
+        return variants[a["v"]]
+
     npeers = len({a["p"] for a in acts if a["a"] == "peer"})
     c = dict(GS_CFG, flood=flood) if gossip else {"router": router}
     c["hosts"] = npeers + 3
@@ -238,7 +276,7 @@ def to_scenario(acts, router, flood):
                 # the graylisted outsider sends it first and the node ignores that RPC
                 if f["q"] not in created:
                     return None
-                pre = {"a": "msg", "p": OUTSIDER, "t": TOPIC, "m": name}
+                pre = dict({"a": "msg", "p": OUTSIDER, "t": TOPIC, "m": name}, **variant(f))
                 if f["q"] != OUTSIDER:
                     pre["author"] = f["q"]
                 out.append(pre)
@@ -265,11 +303,12 @@ def to_scenario(acts, router, flood):
                 x["localOnly"] = True
             out.append(x)
         elif k == "msg":
-            x = {"a": "msg", "p": p, "t": TOPIC, "m": "m%d" % a["v"]}
+            x = dict({"a": "msg", "p": p, "t": TOPIC, "m": "m%d" % a["v"]}, **variant(a))
             if a["q"] != p:
                 if a["q"] not in created:
                     return None
-                x["author"] = a["q"]
+                if "rsa" not in x:          # an RSA identity stands in for the outsider author
+                    x["author"] = a["q"]
             out.append(x)
         else:
             raise vlib.Inconclusive("unknown model action %r" % (a,))
@@ -292,6 +331,7 @@ def plain_walk(rng, router, steps):
                      "subs": [t for t in topics if rng.random() < (0.85 if t == "T1" else 0.4)]})
     acts.append({"a": "subscribe", "t": "T1"})
     msgs, nm, up = [], 0, set(peers)
+    lax = rng.random() < 0.3
     while len(acts) < steps:
         r = rng.random()
         p = rng.choice(peers)
@@ -299,7 +339,8 @@ def plain_walk(rng, router, steps):
             nm += 1
             src = rng.choice(sorted(up))
             a = {"a": "msg", "p": src, "t": rng.choice(topics) if rng.random() < 0.25 else "T1", "m": "m%d" % nm}
-            if rng.random() < 0.5:
+            a.update(pick_variant(rng, rng.random() < 0.4, lax))
+            if rng.random() < 0.5 and "rsa" not in a:
                 a["author"] = rng.choice(peers)
             msgs.append(a)
         elif r < 0.38 and msgs and up:
@@ -326,7 +367,65 @@ def plain_walk(rng, router, steps):
         else:
             continue
         acts.append(a)
-    return {"cfg": {"router": router, "hosts": n + 2}, "acts": acts}
+    return {"cfg": dict({"router": router, "hosts": n + 2}, **({"sign": "lax"} if lax else {})), "acts": acts}
+
+
+def gs_walk(rng, steps):
+    """Seeded random gossipsub scenario whose remote messages carry field variants (RSA authors, attached keys,
+    unknown fields, large payloads; unsigned / from-less / seqno-less messages under the lax policy)."""
+    n = rng.randint(3, 6)
+    peers = ["p%d" % (i + 1) for i in range(n)]
+    lax = rng.random() < 0.3
+    acts = []
+    if rng.random() < 0.7:
+        acts.append({"a": "subscribe", "t": "T1"})
+    for p in peers:
+        acts.append({"a": "peer", "p": p, "proto": rng.choice(["v10", "v11", "v12", "v13", "flood"]), "dir": rng.choice(["in", "out"]),
+                     "subs": ["T1"] if rng.random() < 0.8 else []})
+    msgs, nm, up = [], 0, set(peers)
+    while len(acts) < steps:
+        r, p = rng.random(), rng.choice(peers)
+        if r < 0.30 and up:
+            nm += 1
+            a = {"a": "msg", "p": rng.choice(sorted(up)), "t": "T1", "m": "m%d" % nm}
+            a.update(pick_variant(rng, rng.random() < 0.4, lax))
+            if rng.random() < 0.4 and "rsa" not in a:
+                a["author"] = rng.choice(peers)
+            msgs.append(a)
+        elif r < 0.36 and msgs and up:
+            a = dict(rng.choice(msgs))
+            a["p"] = rng.choice(sorted(up))
+            a.pop("author", None)
+        elif r < 0.46:
+            nm += 1
+            a = {"a": "publish", "t": "T1", "m": "m%d" % nm}
+            if rng.random() < 0.15:
+                a["localOnly"] = True
+        elif r < 0.58 and p in up:
+            a = {"a": "graft", "p": p, "t": "T1"}
+        elif r < 0.64 and p in up:
+            a = {"a": "sub", "p": p, "t": "T1", "v": rng.random() < 0.6}
+        elif r < 0.72 and p in up:
+            a = {"a": "score", "p": p, "v": rng.choice([-5, -4, -1, 0, 0, 2])}
+        elif r < 0.80:
+            a = {"a": "hb"}
+        elif r < 0.85:
+            a = {"a": rng.choice(["subscribe", "subscribe", "cancel"]), "t": "T1"}
+        elif r < 0.88 and p in up:
+            a = {"a": "direct", "p": p, "on": True}
+        elif r < 0.92 and p in up and len(up) > 2:
+            a = {"a": "down", "p": p}
+            up.discard(p)
+        elif r < 0.96 and p not in up:
+            a = {"a": "peer", "p": p, "dir": rng.choice(["in", "out"]), "subs": ["T1"]}
+            up.add(p)
+        else:
+            continue
+        acts.append(a)
+    c = dict(GS_CFG, flood=rng.random() < 0.25, hosts=n + 2)
+    if lax:
+        c["sign"] = "lax"
+    return {"cfg": c, "acts": acts}
 
 
 # ----------------------------------------------------------------------------- replay and trace validation
@@ -363,8 +462,9 @@ def replay(ctx, name, scenarios):
     """Replay scenario files through TestRouterReplay in a few parallel processes. Returns the traces (list of line lists)."""
     nproc = 1 if len(scenarios) < 300 else (4 if ctx.thorough else 3)
     parts = [scenarios[i::nproc] for i in range(nproc)]
-    # batch publishing is not in the common alphabet: such scenarios go through the C06 driver (same interpreter)
-    drv = DRV_C06 if any(a["a"] == "batch" for s in scenarios for a in s["acts"]) else DRV_ROUTER
+    # batch publishing, message field variants and the lax policy are not in the common alphabet: the C06 driver (same interpreter)
+    drv = DRV_C06 if any("sign" in s["cfg"] or any(a["a"] == "batch" or any(k in a for k in VARIANT_KEYS) for a in s["acts"])
+                         for s in scenarios) else DRV_ROUTER
 
     def one(k):
         inp = os.path.join(ctx.work, "scn-%s-%d.ndjson" % (name, k))
@@ -483,6 +583,10 @@ REQUIRED = [  # DESIGN C06 obligations, each on at least one validated step of t
     "direct-not-in-mesh", "mesh-peer-idontwant", "floodsub-or-direct-peer-idontwant", "fanout-select-needs-peer-at-threshold", "non-mesh-gossipsub-peer-skipped", "fanout-select", "fanout-select-more-than-D",
     "fanout-reuse", "fanout-reuse-with-alternatives", "fanout-reuse-after-member-removed", "fanout-member-removed", "fanout-expiry",
     "fanout-kept-past-first-ttl", "fanout-member-at-threshold", "fanout-select-skips-direct", "flood-publish", "flood-publish-below-threshold", "flood-publish-direct-below-threshold", "direct-below-threshold", "forward-under-flood-publish", "local-only-with-topic-peers", "batch-publish", "batch-local-only-with-topic-peers",
+    # P_C06_Copy: forwarded copies of messages with every optional field combination were compared with what was received
+    "forwarded-copy-with-key-gossipsub", "forwarded-copy-with-key-floodsub", "forwarded-copy-with-key-randomsub",
+    "forwarded-copy-rsa-author", "forwarded-copy-unknown-field", "forwarded-copy-large", "forwarded-copy-unsigned",
+    "forwarded-copy-no-from", "forwarded-copy-no-seqno",
     "randomsub-above-D", "randomsub-below-D", "floodsub-router", "connected-peer-not-in-topic"]
 
 
@@ -511,10 +615,11 @@ def run(ctx):
     # 3. replay on the real node
     all_viols, all_steps, ntraces, dropped = [], [], 0, 0
     batches = []
+    vrng = random.Random(ctx.seed * 7919 + 13)
     for f in fams:
         scns = []
         for s in f["scns"]:
-            x = to_scenario(s["acts"], f["router"], f["flood"])
+            x = to_scenario(s["acts"], f["router"], f["flood"], vrng)
             if x is None:
                 dropped += 1
             else:
@@ -525,6 +630,7 @@ def run(ctx):
     nw = 120 if ctx.thorough else 25
     batches.append(("walk-floodsub", [plain_walk(rng, "floodsub", 45) for _ in range(nw)]))
     batches.append(("walk-randomsub", [plain_walk(rng, "randomsub", 50) for _ in range(nw)]))
+    batches.append(("walk-gs-fields", [gs_walk(rng, 45) for _ in range(nw)]))
     walks = [("walk-gs-small", dict(GS_CFG), 150 if ctx.thorough else 30, 70),
              ("walk-gs-default", {"score": True}, 100 if ctx.thorough else 20, 70)]
 
